@@ -350,6 +350,21 @@ def run_check(prop: str, tier: str) -> int:
         findings = load_findings()
         known_seen: dict[str, dict] = {}
         groups: dict[tuple, dict] = {}
+        # every recorded finding carries its minimal failing scenario: it is executed in every
+        # check, so the finding is re-observed (or noticed to be gone) independently of sampling
+        for kf in findings.get("findings", []):
+            if kf.get("property") != prop or "scenario" not in kf:
+                continue
+            r0 = z0.call({"cmd": "exec", "scenario": kf["scenario"], "timeout": m["timeout"][tier]})
+            if "harness_error" in r0:
+                print(f"HARNESS-ERROR executing the pinned scenario of {kf['id']}: {r0['harness_error']}")
+                exit_code = 2
+            elif r0["violations"]:
+                known_seen.setdefault(kf["id"], {"finding": kf, "count": 0, "example": "pinned scenario"})
+                known_seen[kf["id"]]["count"] += 1
+            else:
+                lines.append(f"  note: recorded finding {kf['id']} does not reproduce on this tree "
+                             "(its pinned scenario passes)")
         cf_findings = [f for f in findings.get("findings", [])
                        if f.get("property") == prop and f.get("counterfactual")]
         timeout = m["timeout"][tier]
